@@ -1,5 +1,5 @@
 (* C15 property theorems: statements + `exact lemma` only. *)
-From CJ Require Import Common.Base C15.Model C15.Proofs C15.ModelName C15.ProofsName C15.ModelObf C15.ProofsObf C15.ModelAny C15.ProofsAny C15.ModelDns C15.ProofsDns C15.ModelExch C15.ProofsExch C15.ModelB32 C15.ProofsB32 C15.ModelPb C15.ProofsPb C15.ModelDot C15.ProofsDot C15.ProofsCount.
+From CJ Require Import Common.Base C15.Model C15.Proofs C15.ModelName C15.ProofsName C15.ModelObf C15.ProofsObf C15.ModelAny C15.ProofsAny C15.ModelDns C15.ProofsDns C15.ModelExch C15.ProofsExch C15.ModelB32 C15.ProofsB32 C15.ModelPb C15.ProofsPb C15.ModelDot C15.ProofsDot C15.ProofsCount C15.ProofsTxtLen.
 
 Theorem C15_request_format_roundtrip :
   forall p e, add_request_format p = Some e -> remove_request_format e = Some p.
@@ -216,3 +216,13 @@ Print Assumptions C15_chunks63_count.
 Theorem C15_chunks_nil_iff : forall n p, 0 < n -> (chunks n p = [] <-> p = []).
 Proof. exact chunks_nil_iff. Qed.
 Print Assumptions C15_chunks_nil_iff.
+
+(* dns.EncodeRDataTXT: k octets of text become exactly k + max(1, ceil(k/255)) octets of RDATA (one length octet per
+   character-string; the empty text is the single empty character-string), and the RDATA is never empty *)
+Theorem C15_txt_length : forall p, blen (enc_txt p) = blen p + N.max 1 ((blen p + 254) / 255).
+Proof. exact enc_txt_len. Qed.
+Print Assumptions C15_txt_length.
+
+Theorem C15_txt_nonempty : forall p, enc_txt p <> [].
+Proof. exact enc_txt_nonempty. Qed.
+Print Assumptions C15_txt_nonempty.
